@@ -48,6 +48,20 @@ def corpus_file(ctx):
     return f, names
 
 
+FEATURES = {}   # aggregated over the run: feature of the model -> number of collections that exercised it
+
+REQUIRED_FEATURES = [
+    "site:op2", "site:op28", "site:op35", "site:op5", "frames:1", "frames:2", "frames:3", "freed-something",
+    "free-list-nonempty-before", "root:register-in-window", "root:frame-function-of-callee", "root:frame-closure",
+    "root:global-by-name", "root:global-by-index", "root:open-upvalue", "root:current-upvalue(host call)",
+    "non-root:pointer-register-above-windows", "non-root:layout-snapshot-pointer",
+    "running-function-or-closure-rooted-by-frame-only",
+    "edge:function.const", "edge:function.nested-const", "edge:function.nested-const(depth>=2)", "edge:closure.function",
+    "edge:closure.upvalue", "edge:upvalue.closed", "edge:array.elem", "edge:vec.elem",
+] + ["reachable-kind:" + k for k in ("string", "function", "native", "upvalue", "closure", "array", "vec")] \
+  + ["garbage-kind:" + k for k in ("string", "function", "upvalue", "closure", "array", "vec")]
+
+
 def parse(out):
     progs, runs, probs, dumps = {}, {}, [], []
     for line in out.splitlines():
@@ -60,6 +74,10 @@ def parse(out):
                 "nested_losses": int(t[8]), "pending_seen": int(t[9]), "exposure": int(t[10]),
                 "running_closure_losses": int(t[11]), "only_frame_rooted": int(t[12]),
                 "stale_register_ptrs": int(t[13]), "cache_ptrs": int(t[14])}
+        elif t[0] == "F" and len(t) == 4 and t[3]:
+            for kv in t[3].split(";"):
+                k, v = kv.rsplit("=", 1)
+                FEATURES[k] = FEATURES.get(k, 0) + int(v)
         elif t[0] == "X" and len(t) == 6:
             probs.append({"prog": int(t[1]), "sched": t[2], "collection": int(t[3]), "sig": t[4], "detail": t[5]})
         elif t[0] == "D" and len(t) == 7:
@@ -112,16 +130,18 @@ def run(ctx):
         ctx.log(out[-2000:])
         return
     replay = bool(ctx.replay_file)
-    nprog = 0 if replay else (60 if ctx.tier == "quick" else 800)
+    nprog = 0 if replay else (60 if ctx.tier == "quick" else 500)
     dumps_per_run = 3 if ctx.tier == "quick" else 2
-    profiles = ["dev"] if ctx.tier == "quick" else ["dev", "release"]
+    # (cargo profile, optimisation level of the Aelys compiler, seed offset)
+    configs = [("dev", 0, 0)] if ctx.tier == "quick" else [("dev", 0, 0), ("dev", 2, 1000), ("release", 0, 2000), ("release", 3, 3000)]
+    ctx.cov["configurations"] = [f"{p}/O{o}/seed+{k}" for p, o, k in configs]
     cfile, cnames = corpus_file(ctx)
     tot_runs = tot_coll = tot_dumps = 0
     distinct_dumps, distinct_progs = set(), set()
     stats = {"runs": 0, "differing_runs": 0, "runs_with_collections": 0, "runs_with_collections_by_class": {},
              "collections_audited": 0, "collections_with_nested_constants_live": 0,
              "collections_while_makeclosure_fn_unrooted": 0, "programs_by_class": {}, "baseline_classes": {}}
-    for prof in profiles:
+    for prof, optlvl, seedoff in configs:
         ok, paths, log = vlib.harness_build(["hx_gc"], profile=prof)
         if not ok:
             ctx.broken.append("harness build failed (hx_gc, %s)" % prof)
@@ -129,7 +149,7 @@ def run(ctx):
             return
         out, start, crashes = "", 0, 0
         while True:
-            rc, o = vlib.sh([paths["hx_gc"], "--seed", str(ctx.seed), "--programs", str(nprog), "--file", cfile,
+            rc, o = vlib.sh([paths["hx_gc"], "--seed", str(ctx.seed + seedoff), "--opt", str(optlvl), "--programs", str(nprog), "--file", cfile,
                              "--dumps-per-run", str(dumps_per_run), "--start", str(start)], timeout=3000)
             out += o
             if rc == 0:
@@ -253,6 +273,12 @@ def run(ctx):
         os.remove(cfile)
     except OSError:
         pass
+    ctx.cov["feature_counts"] = dict(sorted(FEATURES.items()))
+    starved = [f for f in REQUIRED_FEATURES if FEATURES.get(f, 0) < (3 if ctx.tier == "quick" else 30)]
+    ctx.cov["starved_features"] = starved
+    if starved and not replay:
+        # the generator no longer reaches a part of the model: the tie is weaker than claimed
+        ctx.broken.append("generator audit: features of the model not exercised: " + ", ".join(starved))
     ctx.cov["evaluations"] = tot_coll + tot_runs
     ctx.cov["distinct_nontrivial"] = len(distinct_dumps) + len(distinct_progs)
     ctx.cov["model_tie_heaps"] = tot_dumps
@@ -267,7 +293,11 @@ def run(ctx):
         "(3:2,3:3,3:7), two pseudo-random (4:k); optimisation level 0; instruction budget 150000; sixth class selfrepl: 2-4 "
         "self-replacing handlers per program (the running function/closure removes the last reference to itself from a global, "
         "a Vec slot, an upvalue or a caller's local, then allocates 1-6 strings one or two frames deeper, then uses its own "
-        "constants/captures; plain functions and capturing closures; nested handlers three frames deep)")
+        "constants/captures; plain functions and capturing closures; nested handlers three frames deep); closure programs also "
+        "call a closure while its captured variable is still an open upvalue, drop Vec/Array temporaries, and end with four HOST "
+        "calls (VM::call_function_by_name on closures with host-allocated string arguments: current_upvalues); plain/mixed "
+        "programs use manual buffers (alloc/store/load/free, ints only: the Alloc safepoint). feature_counts lists how many "
+        "collections exercised each root source, edge kind, object kind (reachable and garbage), safepoint and frame depth")
     ctx.cov["rule"] = ("evaluations = collections audited by the direct oracle + program runs; distinct_nontrivial = distinct "
                        "(heap, roots) dumps evaluated by the Coq model + distinct programs. Oracle per collection: mark bits clear "
                        "before/after, survivors byte-identical (kind, digest, references), every object reachable from the audit's own roots "
